@@ -78,6 +78,10 @@ type InvKnobs struct {
 	CLTV            int    `json:"cltv,omitempty"` // -1 => protocol default
 	Dest            string `json:"dest,omitempty"` // "", "third"
 	ExpirySec       int    `json:"expiry_sec,omitempty"`
+	// routing hint carried by the claim invoice: "" none, "swapchan" names the swap channel
+	// (with the payer as the hinted node), "other" names a channel that does not exist
+	Hint      string `json:"hint,omitempty"`
+	HintDelta uint32 `json:"hint_delta,omitempty"`
 }
 
 type SpendKnob struct {
@@ -555,6 +559,12 @@ func (p *advPeer) openAndAnnounce(s *advSwap) {
 	}
 	if cfg.Inv.Dest == "third" {
 		payreq = EncodePayreq(inv.Hash, invAmt, int64(cltv), w.Nodes[2].Pubkey, inv.ExpiresAt.Milliseconds(), s.id)
+	}
+	switch cfg.Inv.Hint {
+	case "swapchan":
+		payreq = WithHints(payreq, RouteHint{Pubkey: w.Nodes[0].Pubkey, Scid: s.scid, Delta: cfg.Inv.HintDelta})
+	case "other":
+		payreq = WithHints(payreq, RouteHint{Pubkey: w.Nodes[2].Pubkey, Scid: "555x5x5", Delta: cfg.Inv.HintDelta})
 	}
 	// script keys
 	takerPub, _ := hex.DecodeString(neg.TakerPub)
